@@ -250,11 +250,18 @@ def gen_reply_table(rng, prog, n_names=None, force_modes=None):
     for nm in names:
         cover = rng.choice(["s", "e", "se", "se", "a"])
         c = rng.random()
-        if c < 0.35:
+        mixed = False
+        if c < 0.3:
             sig = "raw"
+        elif c < 0.42 and cover == "se":
+            # both methods take one `Binary` payload, only one of them marks it `sv::payload(raw)`
+            sig = [intern_type(prog, T.BINARY)]
+            mixed = True
         else:
             sig = [intern_type(prog, T.random_type(rng)) for _ in range(rng.choice([1, 1, 2, 3]))]
         table["names"][nm] = {"cover": cover, "payload": sig}
+        if mixed:
+            table["names"][nm]["mixed_raw"] = True
     # methods: group names with the same payload signature under shared methods sometimes
     method_names_taken = {h["name"] for h in cpart["handlers"]}
     mcount = 0
@@ -277,8 +284,13 @@ def gen_reply_table(rng, prog, n_names=None, force_modes=None):
         if outcome == "success":
             m["data"] = modes.pop(0) if modes else rng.choice(DATA_MODES)
             if m["data"] in ("typed", "opt"):
-                m["data_ti"] = intern_type(prog, rng.choice([T.STRING, T.U64, T.PT, T.SHAPE, T.vec(T.U32), T.COIN, T.UINT128, T.BOOL]))
+                m["data_ti"] = intern_type(prog, rng.choice([T.STRING, T.U64, T.PT, T.SHAPE, T.vec(T.U32), T.COIN, T.UINT128, T.BOOL,
+                                                              T.option(T.U32), T.option(T.STRING)]))
         pnames = ["payload"] if sig == "raw" else [f"p{i + 1}" for i in range(len(sig))]
+        if sig != "raw" and rng.random() < 0.3:
+            # names that coincide with fields / locals of the generated builders
+            special = rng.sample(["id", "reply_on", "msg", "gas_limit"], min(len(sig), 4))
+            pnames = special + pnames[len(special):]
         m["payload_names"] = pnames
         table["methods"].append(m)
         return m
@@ -286,8 +298,19 @@ def gen_reply_table(rng, prog, n_names=None, force_modes=None):
     by_sig = {}
     for nm, info in table["names"].items():
         key = "raw" if info["payload"] == "raw" else tuple(info["payload"])
+        if info.get("mixed_raw"):
+            key = ("mixed", nm)
         by_sig.setdefault(key, []).append(nm)
     for key, nms in by_sig.items():
+        if key != "raw" and key[0] == "mixed":
+            nm = key[1]
+            sig = table["names"][nm]["payload"]
+            ms = [new_method("success", [nm], sig), new_method("error", [nm], sig)]
+            marked = rng.choice([0, 1])
+            ms[marked]["raw_mark"] = True
+            for m_ in ms:
+                m_["payload_names"] = ["payload"]
+            continue
         sig = "raw" if key == "raw" else list(key)
         for outcome, letter in (("success", "s"), ("error", "e"), ("always", "a")):
             want = [n for n in nms if letter in table["names"][n]["cover"]]
